@@ -6,11 +6,11 @@ sys.path.insert(0, os.path.join(HERE, "tools"))
 import mutants as M
 
 
-def stability(units, seed):
+def stability(units, seed, files=None):
     """second Verus run of each (already generated) unit file with a different rlimit and random seed"""
     out = {}
     for u in units:
-        path = os.path.join(HERE, ".work", u + ".rs")
+        path = (files or {}).get(u) or os.path.join(HERE, ".work", u + ".rs")
         if not os.path.exists(path):
             continue
         t0 = time.time()
